@@ -11,6 +11,7 @@ is derived from the observed head (version bump, successor index, the node's nex
 recomputed inside the retry loop; checked syntactically and by forcing one failed
 compare-exchange with a concurrent operation interposed."""
 import itertools
+import sys
 
 from astdb import AnalysisBroken, walk, strip
 from interp import (Interp, Hooks, Obj, Cell, Ptr, Region, Thrown, Unsupported, Opaque, NULL, UNDEF, NullDeref)
@@ -347,27 +348,80 @@ def cas_interference(cache, rep, capacity=4, depth=1):
     n = 0
     forced = 0
     nviol = 0
-    seqs = [q for k in range(1, depth + 1) for q in itertools.product(('insert', 'get'), repeat=k)]
+    # a trailing '|' marks an operation of a further thread that is itself suspended before its second exchange (its
+    # record is then on neither list) and completes only after the operation under test has finished; allowed from
+    # depth 3 on, at most one per sequence
+    kinds = ('insert', 'get')
+    seqs = [q for k in range(1, depth + 1) for q in itertools.product(kinds, repeat=k)]
+    if depth >= 3:
+        for k in range(2, depth + 1):
+            for q in itertools.product(kinds, repeat=k):
+                for pos in range(k - 1):
+                    seqs.append(q[:pos] + (q[pos] + '|',) + q[pos + 1:])
     for fill in range(0, capacity + 1):
         for mine in ('insert', 'get'):
             for others in seqs:
                 for at in (1, 2):
-                    scenario = '%s-vs-%s@%d/fill=%d' % ({'insert': 'push', 'get': 'pop'}[mine], '+'.join({'insert': 'push', 'get': 'pop'}[o] for o in others), at, fill)
+                    short = {'insert': 'push', 'get': 'pop', 'insert|': 'push(suspended)', 'get|': 'pop(suspended)'}
+                    scenario = '%s-vs-%s@%d/fill=%d' % (short[mine], '+'.join(short[o] for o in others), at, fill)
                     this, it, hooks = cache.new()
                     base = ['b%d' % (k + 1) for k in range(fill)]
                     for tag in base:
                         cache.op_insert(this, it, hooks, tag)
-                    state = {'done': False, 'results': []}
+                    state = {'done': False, 'results': [], 'pending': [], 'late_error': None}
 
                     def run_others(it_, list_cell, others=others, this=this, state=state):
+                        import threading
                         for k, o in enumerate(others):
                             sub = CacheHooks()
                             it2 = Interp(unit, sub)
                             if o == 'insert':
                                 state['results'].append(('insert', 'o%d' % k, cache.op_insert(this, it2, sub, 'o%d' % k)))
-                            else:
+                            elif o == 'get':
                                 state['results'].append(('get', None, cache.op_get(this, it2, sub)))
+                            else:
+                                # the operation runs in a thread of its own that parks before its second exchange; exactly
+                                # one of the two threads runs at any time
+                                reached, resume, finished = threading.Event(), threading.Event(), threading.Event()
+
+                                def park(it3, cell, reached=reached, resume=resume):
+                                    reached.set()
+                                    resume.wait()
+                                sub.interfere_at = 2
+                                sub.interfere = park
+
+                                def body(o=o, k=k, sub=sub, it2=it2, reached=reached, finished=finished):
+                                    try:
+                                        if o == 'insert|':
+                                            state['results'].append(('insert', 'o%d' % k, cache.op_insert(this, it2, sub, 'o%d' % k)))
+                                        else:
+                                            state['results'].append(('get', None, cache.op_get(this, it2, sub)))
+                                    except BaseException as e:  # judged by the main thread
+                                        state['late_error'] = state['late_error'] or e
+                                    finally:
+                                        finished.set()
+                                        reached.set()
+                                th = threading.Thread(target=body, daemon=True)
+                                th.start()
+                                if not reached.wait(60):
+                                    raise AnalysisBroken('a suspended cache operation did not reach its second exchange')
+                                state['pending'].append((th, resume))
                         state['done'] = True
+
+                    def finish_pending(state=state):
+                        for th, resume in state['pending']:
+                            resume.set()
+                            th.join(60)
+                            if th.is_alive():
+                                raise AnalysisBroken('a suspended cache operation did not finish')
+                        state['pending'] = []
+                        if state['late_error'] is not None:
+                            e = state['late_error']
+                            if isinstance(e, OutOfBounds):
+                                raise Violation19('F.cas.shape', 'access outside the record array in a resumed operation: %s' % e, e.where)
+                            if isinstance(e, NullDeref):
+                                raise Violation19('F.cas.shape', 'null record dereferenced in a resumed operation: %s' % e, None)
+                            raise e
                     hooks.interfere_at = at
                     hooks.interfere = run_others
                     hooks.cas_count = 0
@@ -384,6 +438,13 @@ def cas_interference(cache, rep, capacity=4, depth=1):
                             raise Violation19('F.cas.shape', 'access outside the record array while retrying: %s' % e, e.where)
                         except NullDeref as e:
                             raise Violation19('F.cas.shape', 'null record dereferenced while retrying: %s' % e, None)
+                        finally:
+                            if state['pending'] and sys.exc_info()[0] is not None:
+                                for th, resume in state['pending']:
+                                    resume.set()
+                                    th.join(60)
+                                state['pending'] = []
+                        finish_pending()
                         if not state['done']:
                             continue  # the operation finished before reaching that compare-exchange: no such interleaving
                         n += 1
@@ -443,9 +504,9 @@ def cas_interference(cache, rep, capacity=4, depth=1):
 
 def run(db, rep, tier):
     rep.trusted += ['clang 14 AST of detail/Cache.h in both configurations (driver/cache_shared.cpp compiles the atomic one)',
-                    'sqdump extractor + abstract interpreter; std::atomic load/store/compare_exchange summarised sequentially, with one forced interposition',
+                    'sqdump extractor + abstract interpreter; std::atomic load/store/compare_exchange summarised sequentially, with forced interpositions (a suspended operation of a further thread is interpreted in a Python thread of its own that is parked at its second exchange: one interpreter runs at any time)',
                     'operation sequences enumerated exhaustively up to the stated length']
-    rep.declined += ['linearizability under all interleavings of 2..3 threads (needs a model checker; explored: one preemption of one operation before its first or second exchange, with up to 1 (quick) / 3 (thorough) complete operations of other threads interposed, at every fill level)']
+    rep.declined += ['linearizability under all interleavings of 2..3 threads (needs a model checker; explored: one preemption of one operation before its first or second exchange, with up to 3 (quick) / 4 (thorough) operations of other threads interposed, one of which may itself be suspended before its second exchange and complete only afterwards, at every fill level)']
     shared = Cache(db, 'cache_shared', 'squids::detail::cache<sqv_driver::entry, 4>', 'sqv_driver::entry')
     tls = Cache(db, 'SUNalg', 'squids::detail::cache<squids::SU_vector::mem_cache_entry, 32>', 'squids::SU_vector::mem_cache_entry')
     for c in (shared, tls):
@@ -465,4 +526,4 @@ def run(db, rep, tier):
     rep.sample('F.stack.spec', 'shared N=4: all %d sequences over {insert,fetch}; thread-local N=32: %d sequences from fills 0,1,31,32' % (n1, n2))
     cas_shape(shared, rep)
     if ok1:
-        cas_interference(shared, rep, depth=3 if tier == 'thorough' else 1)
+        cas_interference(shared, rep, depth=4 if tier == 'thorough' else 3)
